@@ -71,7 +71,8 @@ func (c *vfakeClient) GetFailOverLogs(vbID uint16) ([]gocbcore.FailoverEntry, er
 			return nil, err
 		}
 	}
-	return []gocbcore.FailoverEntry{{VbUUID: c.failover[vbID], SeqNo: 0}}, nil
+	// newest branch first, then an older one (a vBucket that failed over once)
+	return []gocbcore.FailoverEntry{{VbUUID: c.failover[vbID], SeqNo: 5}, {VbUUID: c.failover[vbID] ^ 0x5a5a, SeqNo: 0}}, nil
 }
 
 func (c *vfakeClient) OpenStream(vbID uint16, _ map[uint32]string, offset *models.Offset, observer couchbase.Observer) error {
